@@ -66,6 +66,10 @@ def run(chk, repo):
     c19.start(chk, repo)
     c19.widths(chk, repo)
     c19.descs(chk, repo)
+    chk.doc("R01.5", "sign extension of loaded values (shared with C01): "
+                     "the previous velocity is a signed 16-bit variable "
+                     "read in 64-bit arithmetic")
+    c01.r5_signext(chk, repo, _d)
     chk.doc("R19.3", "offset and format resolution of the terminal "
                      "variables the motor reads and writes (shared with "
                      "C19)")
